@@ -2324,7 +2324,7 @@ var c08MultiRGKinds = []string{"column-pages", "multi-pages", "multi-values", "m
 var c08T0 = time.Now()
 
 func RunC08(ctx *core.Ctx) {
-	ctx.SetRule("files of catalogue struct types (nested/repeated/optional columns, random rows) under random writer configurations (page version, codec, page buffers from 1 byte = one page per row, several row groups) x open options (page index loaded or skipped, sync/async, read buffer 1..4096) x reader kind (FilePages, value reader, row group rows, Reader.ReadRows/Read, GenericReader, MultiRowGroup rows/pages/values, MultiRowGroup calls nested to any depth over any sequence of the row groups, Column.Pages() over all row groups, row range views, buffers) x random histories of up to 200 SeekToRow/read/lazy-index-load ops aimed at the cached page, page boundaries +-1 and the end; distinct by file+view+history; non-trivial = the history seeks backward at least once on a file of >= 2 rows")
+	ctx.SetRule("files of catalogue struct types (nested/repeated/optional columns, random rows) under random writer configurations (page version, codec, page buffers from 1 byte = one page per row, several row groups) x open options (page index loaded or skipped, sync/async, read buffer 1..4096) x reader kind (FilePages, value reader, row group rows, Reader.ReadRows/Read, GenericReader, MultiRowGroup rows/pages/values, MultiRowGroup calls nested to any depth over any sequence of the row groups, Column.Pages() over all row groups, row range views, buffers) x random histories of up to 200 SeekToRow/read/lazy-index-load ops aimed at the cached page, page boundaries +-1 and the end; distinct by file+view+history; non-trivial = the history seeks backward at least once on a file of >= 2 rows; " + c08psRule)
 	var mu sync.Mutex
 	shrunk := map[string]int{}
 	newWorker := func() *c08Worker {
